@@ -43,6 +43,7 @@ def parse_tokens(body):
 class C10(Prop):
     pid = "C10"
     lean_module = "RxModel.Props.C10"
+    extra_modules = ("RxModel.Props.C06S",)
     design_ref = "DESIGN.md §6 C10"
     rule = ("a SubjectThreads with 1-3 subscribers, each behind a chain (<=3) of lock-free stages (map), shared cells "
             "(merge_threads), Option slots (take_until_threads) and finalize_threads; scripts of next / is_empty-len / "
@@ -52,7 +53,10 @@ class C10(Prop):
             "on the same shape (cells renamed by first acquisition). Oracle on the implementation trace alone: no "
             "cell is re-acquired by its holder; the held-before relation over the whole case is acyclic (so a rank "
             "exists: hypothesis of rank_deadlock_free); every callback runs with its subscriber's slot held "
-            "(hypothesis of callbacks_serialised); sections are properly nested.")
+            "(hypothesis of callbacks_serialised); sections are properly nested. Suite `inject`: every one-preemption "
+            "interleaving `first k critical sections of A, all of B, rest of A` of two SubjectThreads operations after "
+            "every short prefix (see C06), replayed on the real code through hook H2 and on the step model of "
+            "Props/C06S.lean; oracle: no PANIC, no HANG (+ the C06 clauses).")
     assumptions = ["the LTS abstracts data: std::sync::Mutex, the OS scheduler and the memory model are trusted to implement it",
                    "callers do not re-enter the same pipeline from a callback (as in the property)",
                    "traces are recorded on one thread; real interleavings are covered by the LTS theorems, not replayed"]
@@ -114,12 +118,18 @@ class C10(Prop):
                             mode="mixed" if i % 2 else "fifo", unsub_p=0.15)
             out.append(Case("time", "threads", [("locktrace", ["1"]), ("pipe", [pipe])], evs,
                             {"kind": "time-locktrace"}))
+        # one-preemption interleavings of two SubjectThreads operations on the real code (no panic / no hang)
+        from .. import injgen as ig
+        out += ig.cases(tier, seed)
         return out
 
     def project(self, body):
         return strip_lock(body)
 
     def oracle(self, case, lines, model_lines=None):
+        if case.suite == "inject":
+            from .. import injgen as ig
+            return ig.oracle(case, lines)
         edges = set()
         slot_of = {}
         for k in range(len(case.events)):
@@ -166,6 +176,9 @@ class C10(Prop):
         return None
 
     def signature(self, case, failure):
+        if case.suite == "inject":
+            from .. import injgen as ig
+            return ig.signature(case, failure)
         if case.suite != "locks":
             return f"{failure['kind']}|{case.suite}"
         elems = sorted({e for c in case.field("subs") for e in c})
@@ -173,6 +186,9 @@ class C10(Prop):
 
     def shrink_candidates(self, case):
         cands = []
+        if case.suite == "inject":
+            from .. import injgen as ig
+            return ig.shrink_candidates(case)
         if case.suite != "locks":
             for i in range(len(case.events) - 1, -1, -1):
                 if case.events[i][0] == "sub":
@@ -202,6 +218,9 @@ class C10(Prop):
         return cands
 
     def nontrivial(self, case, lines):
+        if case.suite == "inject":
+            from .. import injgen as ig
+            return ig.nontrivial(case, lines)
         return any(len(b) > 2 for b in lines.values())
 
 
